@@ -74,7 +74,12 @@ fn queries_from_set_expr<'a>(set_expr: &'a ast::SetExpr) -> Vec<&'a ast::Query> 
             .iter()
             .flat_map(|table_with_joins| TableWithJoins(table_with_joins).queries())
             .collect(),
-        ast::SetExpr::SetOperation { .. } => vec![],
+        // The derived tables of both arms are sub-queries of the query
+        ast::SetExpr::SetOperation { left, right, .. } => queries_from_set_expr(left.as_ref())
+            .into_iter()
+            .chain(queries_from_set_expr(right.as_ref()))
+            .collect(),
+        ast::SetExpr::Query(query) => queries_from_set_expr(query.body.as_ref()),
         ast::SetExpr::Values(_values) => todo!(),
         _ => todo!(), // Not implemented
     }
